@@ -279,6 +279,30 @@ pub fn run(_tier: &str) -> Report {
         if !matches!(r, Ok(true)) {
             fail(&mut f_ctor, json!({"ctor": "base64_public_key!(\"YWJj\") / owned_base64_public_key!(\"YWJj\")", "observed": format!("{:?}", r.map_err(|_| "panic"))}));
         }
+        // constructors that cannot refuse their arguments (they do not return a Result)
+        for (alg, name) in [("ed25519", "DEV"), ("a:b", "DEV"), ("", "DEV")] {
+            n += 1;
+            let r = std::panic::catch_unwind(|| {
+                let dev: &ruma_common::DeviceId = name.into();
+                let k = DeviceKeyId::from_parts(ruma_common::DeviceKeyAlgorithm::from(alg), dev);
+                let parsed = <&DeviceKeyId>::try_from(k.as_str()).map(|p| (p.algorithm().as_ref().to_owned(), p.key_name().as_str().to_owned()));
+                (k.as_str().to_owned(), parsed.ok(), k.algorithm().as_ref().to_owned(), k.key_name().as_str().to_owned())
+            });
+            match r {
+                Ok((_, Some((pa, pn)), a, nm)) if pa == alg && pn == name && a == alg && nm == name => {}
+                other => fail(&mut f_ctor, json!({"ctor": "DeviceKeyId::from_parts", "input": format!("algorithm {alg:?}, key name {name:?}"), "observed": format!("{:?}", other.map_err(|_| "panic"))})),
+            }
+        }
+        for bytes in [&b"abc"[..], &b""[..]] {
+            n += 1;
+            let r = std::panic::catch_unwind(|| {
+                let k = ruma_common::OwnedBase64PublicKey::with_bytes(bytes);
+                <&ruma_common::Base64PublicKey>::try_from(k.as_str()).is_ok()
+            });
+            if !matches!(r, Ok(true)) {
+                fail(&mut f_ctor, json!({"ctor": "OwnedBase64PublicKey::with_bytes", "input": format!("{} bytes", bytes.len()), "observed": format!("{:?}", r.map_err(|_| "panic"))}));
+            }
+        }
         // "no NUL or colon in localparts"; an MXC URI has a non-empty media ID
         for (ty, text) in [("EventId", "$a\0b:s.org"), ("EventId", "$a\0b"), ("EventId", "$\0"), ("UserId", "@a\0b:s.org"), ("RoomAliasId", "#a\0b:s.org"), ("RoomId", "!a\0b:s.org"), ("RoomId", "!a\0b")] {
             n += 1;
